@@ -83,7 +83,18 @@ def check_group(g, rng, n, found, stats, tol=1e-9):
                 if not d <= tol * (1 + np.max(np.abs(comm))):
                     report(alg + ".ad:comm", "hat(ad_x y) != [hat x, hat y]", {"x": x.tolist(), "y": y.tolist()}, d)
                 if have_Ad and np.atleast_2d(Ad(X)).shape == (k, k):
-                    xs = x * 0.7
+                    # rotation magnitudes from tiny to beyond pi (just under 2 pi)
+                    mag = [1e-4, 0.03, 0.7, 2.0, 3.3, 4.5, 6.0][it % 7]
+                    xs = x.copy()
+                    rot = slice(k - 3, k) if k >= 3 and g.algebra not in ("r3", "se2") else None
+                    if g.algebra == "se2":
+                        xs[2] = mag * np.sign(xs[2] if xs[2] != 0 else 1.0)
+                    elif rot is not None and g.algebra in ("so3", "se3", "se23"):
+                        xs[rot] = xs[rot] / np.linalg.norm(xs[rot]) * mag
+                    else:
+                        xs = x * 0.7
+                    if g.name == "SO3Euler" and mag > 3.0:
+                        xs = x * 0.7
                     E = np.atleast_1d(expf(xs))
                     lhs = np.atleast_2d(Ad(E))
                     rhs = nl.expm(np.atleast_2d(ad(xs)))
@@ -134,6 +145,23 @@ def search(ctx):
             continue
         except Exception as e:
             ctx.notes.append("search: %s raised %s: %s" % (g.name, type(e).__name__, str(e)[:160]))
+    # Euler products / inverses landing inside the gimbal band: documented band tolerance only
+    try:
+        prod = nl.F("SO3", "SO3Euler.product"); AdE = nl.F("SO3", "SO3Euler.Ad"); invE = nl.F("SO3", "SO3Euler.inverse")
+        for it in range(n):
+            X, Y, d = common.euler_band_pair(rng)
+            stats["evaluations"] += 1
+            stats["distinct"].add(("SO3Euler@band", it))
+            err = np.max(np.abs(AdE(np.atleast_1d(prod(X, Y))) - AdE(X) @ AdE(Y)))
+            # inverse of an element whose inverse lands in the band
+            Z = common.euler_of_R((common.euler_R(X) @ common.euler_R(Y)).T)
+            err2 = np.max(np.abs(AdE(np.atleast_1d(invE(Z))) @ AdE(Z) - np.eye(3))) if abs(abs(Z[1]) - np.pi / 2) > 1e-3 else 0.0
+            if not max(err, err2) <= 5e-3 and not any(f["case"] == "SO3Euler.Ad:hom-band" for f in found):
+                found.append({"case": "SO3Euler.Ad:hom-band", "function": "SO3Euler",
+                              "what": "Ad of a product/inverse landing inside the gimbal band is off by more than the band tolerance",
+                              "inputs": {"X": X.tolist(), "Y": Y.tolist(), "delta": d}, "error": float(max(err, err2)), "tolerance": 5e-3})
+    except Exception as e:
+        ctx.notes.append("search: euler band raised %s" % e)
     for f in found:
         f["obligation"] = "search:" + f["case"]
     ctx.samples.extend(found[:3] or [{"group": "SE23Quat", "x": rng.standard_normal(9).tolist()}])
